@@ -14,7 +14,12 @@ import (
 	"runtime"
 	"sort"
 	"strings"
+	"sync"
 )
+
+// When no controlled run is in progress (s == nil) every primitive falls back
+// to the real Go primitive it replaces, so that an overlay build also runs
+// free (sequential harnesses, and the separate free-running -race pass).
 
 // Tape decides, at each point, which enabled goroutine continues.  enabled is
 // in canonical order: the running goroutine first if it is still enabled,
@@ -114,7 +119,7 @@ func Run(tape Tape, maxPoints int, body func()) Report {
 	func() {
 		defer func() {
 			if r := recover(); r != nil {
-				if _, ok := r.(abortSignal); !ok {
+				if _, ok := r.(abortSignal); !ok && !sc.aborting {
 					sc.rep.Panics = append(sc.rep.Panics, panicText(0, r))
 				}
 			}
@@ -318,7 +323,8 @@ func clone(a []int) []int { return append([]int(nil), a...) }
 func Go(f func()) {
 	sc := s
 	if sc == nil {
-		panic("vsched.Go outside vsched.Run")
+		go f()
+		return
 	}
 	if sc.aborting {
 		return
@@ -335,7 +341,7 @@ func Go(f func()) {
 		defer func() {
 			r := recover()
 			if r != nil {
-				if _, ok := r.(abortSignal); !ok {
+				if _, ok := r.(abortSignal); !ok && !sc.aborting {
 					sc.rep.Panics = append(sc.rep.Panics, panicText(child.id, r))
 				}
 			}
@@ -360,6 +366,7 @@ func Go(f func()) {
 // ---------------------------------------------------------------- Mutex
 
 type Mutex struct {
+	real   sync.Mutex
 	locked bool
 	owner  int
 	vc     []int
@@ -368,10 +375,7 @@ type Mutex struct {
 func (m *Mutex) Lock() {
 	sc := s
 	if sc == nil {
-		if m.locked {
-			panic("vsched.Mutex: Lock of a locked mutex outside a controlled run (self deadlock)")
-		}
-		m.locked = true
+		m.real.Lock()
 		return
 	}
 	if sc.aborting {
@@ -389,7 +393,7 @@ func (m *Mutex) Lock() {
 func (m *Mutex) Unlock() {
 	sc := s
 	if sc == nil {
-		m.locked = false
+		m.real.Unlock()
 		return
 	}
 	if sc.aborting {
@@ -414,18 +418,20 @@ func (m *Mutex) Unlock() {
 // ---------------------------------------------------------------- Chan (unbuffered)
 
 type Chan struct {
+	real    chan interface{}
 	closed  bool
 	closeVC []int
 	sendq   []*g
 	recvq   []*g
 }
 
-func NewChan() *Chan { return &Chan{} }
+func NewChan() *Chan { return &Chan{real: make(chan interface{})} }
 
 func (c *Chan) Send(v interface{}) {
 	sc := s
 	if sc == nil {
-		panic("vsched.Chan.Send outside vsched.Run")
+		c.real <- v
+		return
 	}
 	if sc.aborting {
 		return
@@ -463,7 +469,8 @@ func (c *Chan) Recv() interface{} {
 func (c *Chan) Recv2() (interface{}, bool) {
 	sc := s
 	if sc == nil {
-		panic("vsched.Chan.Recv outside vsched.Run")
+		v, ok := <-c.real
+		return v, ok
 	}
 	if sc.aborting {
 		panic(abortSignal{})
@@ -498,7 +505,7 @@ func (c *Chan) Recv2() (interface{}, bool) {
 func (c *Chan) Close() {
 	sc := s
 	if sc == nil {
-		c.closed = true
+		close(c.real)
 		return
 	}
 	if sc.aborting {
